@@ -4,7 +4,7 @@ import AsyncsshModel.Lemmas.ChannelStep
   * the application's pause is honoured: while `_recv_paused` is set, nothing but the application's own
     `resume_reading()` (or the `_start_reading` task of a channel that is still starting) makes the endpoint call
     `data_received` or leave the paused state (`pause_honoured`) — the clause a second `shell` request broke before
-    repair b98700f;
+    repair e7dbee0;
   * window accounting of a layer-3 tunnel channel: with the repaired `_accept_data` the receiver's idea of the
     peer's remaining window moves by exactly the packet length (`tun_accept_accounting`); before the repair it was
     4 bytes too high after every packet (`tun_accept_leak_preFix`).
@@ -169,7 +169,7 @@ theorem accept_accounting (c : Chan) (data : Bytes) (dt : DType) (hs : c.sendSta
         simp only [Bool.false_eq_true, if_false, adjustSum]
         omega
 
-/-- **Tunnel accounting (since repair 6aa4f78)**: a layer-3 tunnel packet of `n` bytes on the wire (header
+/-- **Tunnel accounting (since repair 9f86e20)**: a layer-3 tunnel packet of `n` bytes on the wire (header
     included) lowers what the receiver allows the peer to send by exactly `n`, plus the WINDOW_ADJUST it sends —
     the same amount the sender subtracted from its send window, so the two stay in step. -/
 theorem tun_accept_accounting (c : Chan) (data : Bytes) (dt : DType) (hs : c.sendState = .opn)
@@ -181,7 +181,7 @@ theorem tun_accept_accounting (c : Chan) (data : Bytes) (dt : DType) (hs : c.sen
   simp only [credit, List.length_take, List.length_drop]
   omega
 
-/-- **Witness for the code BEFORE repair 6aa4f78**: after every tunnel packet (of at least 4 bytes) the receiver
+/-- **Witness for the code BEFORE repair 9f86e20**: after every tunnel packet (of at least 4 bytes) the receiver
     believes the peer has 4 bytes of window more than the peer really has — they are never returned: after
     `window / 4` packets the sender's window is exhausted while the receiver still sees half a window and sends no
     WINDOW_ADJUST. -/
